@@ -30,7 +30,7 @@ _BI_TB = ["the real `copia` binary built from the tree under test, run in a sand
 
 PROPS = {
     "C01": dict(
-        modules=["Copia.Props.C01"], namespaces=["Copia.C01"], runner="rust", needs_cli=True,
+        modules=["Copia.Props.C01", "Copia.Props.C01b"], namespaces=["Copia.C01"], runner="rust", needs_cli=True,
         assumptions=_DELTA_ASSUME, trusted_base=_DELTA_TB,
         level_text="Kernel-checked theorems for ALL basis/source byte strings and ALL positive block sizes: patch(basis, delta(signature(basis), src)) = ok src "
                    "(or H collides on an explicit pair), delta well-formedness (declared size/checksum, lengths sum, copies inside the basis), sync_files for absent/identical/differing destination. "
@@ -222,7 +222,7 @@ PROPS = {
         technique="Lean 4 proof (soundness/completeness of the backtracking matcher by induction on fuel with a measure; list lemmas for the planner) + exhaustive differential correspondence",
     ),
     "C15": dict(
-        modules=["Copia.Props.C15", "Copia.Props.C04"], namespaces=["Copia.C15", "Copia.C04.dry_run"], runner=["rust", "bb"], bb_module="bb_oneway",
+        modules=["Copia.Props.C15", "Copia.Props.C15b", "Copia.Props.C04"], namespaces=["Copia.C15", "Copia.C04.dry_run"], runner=["rust", "bb"], bb_module="bb_oneway",
         assumptions=COMMON_ASSUME + [
             "names are valid UTF-8 (`to_string_lossy` is the identity)",
             "dry-run clause: decided by the black-box correspondence on the real CLI (see DESIGN.md §5 C15); the theorems here cover exclusion semantics, protection and opt-in deletes",
